@@ -608,6 +608,121 @@ fn op_mle(t: &mut Tape<'_>) -> Outcome {
     Outcome { bytes: out, desc: format!("mle/mv: {} variables mode {}", nv, mode), above_threshold: nv >= 4, size: 1 << nv }
 }
 
+// ---------------------------------------------------------------------------------------
+// large inputs: several work-splitting rules only change behaviour when the input is large *per thread*
+// (chunk caps, "about k chunks per thread" heuristics), so sizes must scale with the pool
+// ---------------------------------------------------------------------------------------
+fn large_len(t: &mut Tape<'_>, max: usize) -> usize {
+    match t.weighted(&[3, 4, 3]) {
+        // around c * 2^k boundaries, k = 12..20
+        0 => {
+            let k = t.range(12, 20);
+            let c = [1usize, 2, 3, 5, 6, 7, 16][t.idx(7)];
+            ((c << k) + t.below(5) as usize).saturating_sub(2).min(max)
+        },
+        1 => t.below(max as u64 + 1) as usize,
+        _ => (1usize << t.range(10, 20)).min(max),
+    }
+}
+
+fn op_poly_eval_large(t: &mut Tape<'_>) -> Outcome {
+    use vh_core::zoo::Gold;
+    let mut s = Stream::new(t.u64());
+    let len = large_len(t, (1 << 20) + 70);
+    let coeffs: Vec<Gold> = (0..len).map(|_| Gold::from(s.next())).collect();
+    let p = DensePolynomial::<Gold>::from_coefficients_vec(coeffs);
+    let x = Gold::from(s.next() | 2);
+    let mut out = ser(&p.evaluate(&x));
+    out.extend(ser(&p.evaluate(&Gold::from(1u64))));
+    Outcome { bytes: out, desc: format!("poly-eval-large/Goldilocks: evaluate a polynomial with {} coefficients", len), above_threshold: len >= 32, size: len }
+}
+
+fn op_batch_inv_large(t: &mut Tape<'_>) -> Outcome {
+    use vh_core::zoo::Gold;
+    let mut s = Stream::new(t.u64());
+    let len = large_len(t, 300_000);
+    let mut v: Vec<Gold> = (0..len).map(|i| if i % 97 == 13 { Gold::from(0u64) } else { Gold::from(s.next()) }).collect();
+    let k = Gold::from(s.next() | 1);
+    ark_ff::batch_inversion_and_mul(&mut v, &k);
+    Outcome { bytes: ser(&v), desc: format!("batch-inversion-large/Goldilocks: {} elements", len), above_threshold: len >= 2, size: len }
+}
+
+fn op_vanishing_large(t: &mut Tape<'_>) -> Outcome {
+    use vh_core::zoo::Gold;
+    let mut s = Stream::new(t.u64());
+    let len = large_len(t, 200_000);
+    let p = DensePolynomial::<Gold>::from_coefficients_vec((0..len).map(|_| Gold::from(s.next())).collect());
+    // divide_by_vanishing_poly costs len^2 / n: keep len / n <= 64
+    let kmin = (len / 64).max(4).next_power_of_two().trailing_zeros() as u64;
+    let n = 1usize << t.range(kmin, kmin + 6);
+    let d = Radix2EvaluationDomain::<Gold>::new(n).unwrap();
+    let d = if t.bool() { d.get_coset(Gold::GENERATOR).unwrap() } else { d };
+    let mut out = ser(&p.mul_by_vanishing_poly(d));
+    let (q, r) = p.divide_by_vanishing_poly(d);
+    out.extend(ser(&q));
+    out.extend(ser(&r));
+    let k = Gold::from(s.next());
+    out.extend(ser(&(&p * k)));
+    Outcome { bytes: out, desc: format!("vanishing-large/Goldilocks: {} coefficients, domain {}", len, n), above_threshold: len >= 2, size: len }
+}
+
+fn op_msm_large(t: &mut Tape<'_>) -> Outcome {
+    op_msm::<ark_ed_on_bls12_381::EdwardsProjective>(t, 6000, "msm-large/ed_on_bls12_381")
+}
+
+fn op_normalize_large(t: &mut Tape<'_>) -> Outcome {
+    use ark_ed_on_bls12_381::EdwardsProjective as G;
+    let mut s = Stream::new(t.u64());
+    let n = large_len(t, 20_000);
+    let g = G::generator();
+    let mut acc = g * <G as PrimeGroup>::ScalarField::from(s.next());
+    let v: Vec<G> = (0..n)
+        .map(|i| {
+            if i % 53 == 7 {
+                G::zero()
+            } else {
+                acc = acc.double() + g;
+                acc
+            }
+        })
+        .collect();
+    Outcome { bytes: ser(&G::normalize_batch(&v)), desc: format!("normalize-large/ed_on_bls12_381: {} points", n), above_threshold: n >= 2, size: n }
+}
+
+/// multi-pairings with many pairs (chunking rules that depend on pairs per thread)
+fn op_multi_pairing_many<E: Pairing>(t: &mut Tape<'_>, max: usize, what: &str) -> Outcome {
+    let mut s = Stream::new(t.u64());
+    let n = match t.weighted(&[2, 3]) {
+        0 => t.range(11, max as u64) as usize,
+        _ => ([16usize, 17, 32, 33, 48, 49, 64, 65][t.idx(8)] + t.below(2) as usize).min(max),
+    };
+    let g1 = E::G1::generator();
+    let g2 = E::G2::generator();
+    // few distinct points (cheap to build), many pairs
+    let p1: Vec<E::G1Affine> = (0..5).map(|i| (g1 * E::ScalarField::from(3u64 + i)).into_affine()).collect();
+    let p2: Vec<E::G2Affine> = (0..5).map(|i| (g2 * E::ScalarField::from(7u64 + i)).into_affine()).collect();
+    let mut ps = Vec::new();
+    let mut qs = Vec::new();
+    for _ in 0..n {
+        ps.push(if s.next() % 11 == 0 { E::G1::zero().into_affine() } else { p1[(s.next() % 5) as usize] });
+        qs.push(if s.next() % 11 == 0 { E::G2::zero().into_affine() } else { p2[(s.next() % 5) as usize] });
+    }
+    let ml = E::multi_miller_loop(ps, qs);
+    Outcome { bytes: ser(&ml.0), desc: format!("{}: multi_miller_loop of {} pairs", what, n), above_threshold: true, size: n }
+}
+fn op_mpm_bw6(t: &mut Tape<'_>) -> Outcome {
+    op_multi_pairing_many::<ark_bw6_761::BW6_761>(t, 70, "multi-pairing-many/bw6_761")
+}
+fn op_mpm_bls381(t: &mut Tape<'_>) -> Outcome {
+    op_multi_pairing_many::<ark_test_curves::bls12_381::Bls12_381>(t, 140, "multi-pairing-many/bls12_381")
+}
+fn op_mpm_bn254(t: &mut Tape<'_>) -> Outcome {
+    op_multi_pairing_many::<ark_bn254::Bn254>(t, 140, "multi-pairing-many/bn254")
+}
+fn op_mpm_mnt4(t: &mut Tape<'_>) -> Outcome {
+    op_multi_pairing_many::<ark_mnt4_298::MNT4_298>(t, 70, "multi-pairing-many/mnt4_298")
+}
+
 pub fn ops() -> Vec<Op> {
     vec![
         Op { name: "fft/radix2.Goldilocks", tape_len: 14, cases_quick: 240, cases_thorough: 3000, run: op_fft_gold },
@@ -636,6 +751,15 @@ pub fn ops() -> Vec<Op> {
         Op { name: "multi_pairing/mnt6_298", tape_len: 6, cases_quick: 32, cases_thorough: 400, run: op_mp_mnt6 },
         Op { name: "multi_pairing/bw6_761", tape_len: 6, cases_quick: 20, cases_thorough: 250, run: op_mp_bw6 },
         Op { name: "batch_check/Vec<bls12_381.G1Affine>", tape_len: 8, cases_quick: 64, cases_thorough: 800, run: op_batch_check },
+        Op { name: "poly-eval-large/Goldilocks", tape_len: 8, cases_quick: 40, cases_thorough: 400, run: op_poly_eval_large },
+        Op { name: "batch-inversion-large/Goldilocks", tape_len: 8, cases_quick: 20, cases_thorough: 200, run: op_batch_inv_large },
+        Op { name: "vanishing-large/Goldilocks", tape_len: 10, cases_quick: 20, cases_thorough: 200, run: op_vanishing_large },
+        Op { name: "msm-large/ed_on_bls12_381", tape_len: 10, cases_quick: 6, cases_thorough: 60, run: op_msm_large },
+        Op { name: "normalize-large/ed_on_bls12_381", tape_len: 8, cases_quick: 8, cases_thorough: 80, run: op_normalize_large },
+        Op { name: "multi-pairing-many/bw6_761", tape_len: 6, cases_quick: 4, cases_thorough: 40, run: op_mpm_bw6 },
+        Op { name: "multi-pairing-many/bls12_381", tape_len: 6, cases_quick: 6, cases_thorough: 60, run: op_mpm_bls381 },
+        Op { name: "multi-pairing-many/bn254", tape_len: 6, cases_quick: 6, cases_thorough: 60, run: op_mpm_bn254 },
+        Op { name: "multi-pairing-many/mnt4_298", tape_len: 6, cases_quick: 4, cases_thorough: 40, run: op_mpm_mnt4 },
         Op { name: "mle/bls12_381.Fr", tape_len: 10, cases_quick: 240, cases_thorough: 3000, run: op_mle },
     ]
 }
